@@ -65,6 +65,43 @@ structure Dyn where
 /-- a Go `string` in an `any` -/
 def Dyn.ofString (s : String) : Dyn := ⟨"string", .str s⟩
 
+/-- how a trait type declares one of `UnmarshalJSON([]byte) error`, `UnmarshalYAML(*yaml.Node) error`,
+`UnmarshalText([]byte) error`: not at all, on the pointer receiver (what genum itself generates and
+what a hand-written unmarshaler that stores its result has to use), on the value receiver -/
+inductive Recv where
+  | no
+  | ptr
+  | val
+  deriving DecidableEq, Repr
+
+/-- the unmarshal methods in the declared method list of a (named) trait type -/
+structure Methods where
+  json : Recv := .no
+  yaml : Recv := .no
+  text : Recv := .no
+  deriving DecidableEq, Repr
+
+inductive Codec where
+  | json
+  | yaml
+  | text
+  deriving DecidableEq, Repr
+
+/-- `implementsJSONUnmarshaler`, `implementsYAMLUnmarshaler`, `implementsTextUnmarshaler`
+(`traits.go`). The first two ask `gencommon.TypeImplements`, which walks the DECLARED methods of
+the named type and compares names and signatures "with out checking receivers"; the third asks
+`types.Implements(td.Type, iface)`, i.e. the method set of the VALUE type, which a pointer-receiver
+`UnmarshalText` is not part of. -/
+def Methods.implements (m : Methods) : Codec → Bool
+  | .json => m.json != .no
+  | .yaml => m.yaml != .no
+  | .text => m.text == .val
+
+/-- the unmarshal methods of an enum that genum generated under `-json=j -yaml=y -text=t`: each
+switch that is on gives the type that codec's unmarshaler, on the pointer receiver -/
+def Methods.ofSwitches (j y t : Bool) : Methods :=
+  ⟨if j then .ptr else .no, if y then .ptr else .no, if t then .ptr else .no⟩
+
 /-- how `traits.go` classifies the type of a trait column (`extractUnderlying`): a string-kinded
 named type (`types.String`; an UNTYPED string constant is not in the switch and needs no cast),
 a signed / unsigned integer kind of some width, or nothing the template has a decoder branch for
@@ -74,12 +111,20 @@ inductive Family where
   | nstr
   | sint (bits : Nat)
   | uint (bits : Nat)
-  /-- a type that unmarshals itself from JSON and YAML (`implementsJSONUnmarshaler` /
-  `implementsYAMLUnmarshaler`): another enum of the package whose generated code already exists
-  when the generator runs; `inner` names that enum -/
-  | self (inner : String)
+  /-- an integer-kinded named type of the package that declares unmarshal methods of its own `m`:
+  another enum whose generated code already exists when the generator runs (it has exactly the
+  methods its own `-json`, `-yaml`, `-text` switches gave it), or a hand-written type; `inner` names the
+  type, `signed`/`bits` its underlying kind (`extractUnderlying` looks through the name) -/
+  | self (inner : String) (signed : Bool) (bits : Nat) (m : Methods)
   | none
   deriving DecidableEq, Repr
+
+/-- the trait type brings its own unmarshaler for codec `c`, as `traits.go` sees it. Basic kinds,
+method-less named types and `time.Duration` bring none. -/
+def Family.implements (fam : Family) (c : Codec) : Bool :=
+  match fam with
+  | .self _ _ _ m => m.implements c
+  | _ => false
 
 /-- `types.BasicKind` of the underlying type of a trait column, as far as `extractUnderlying`
 (`traits.go`) distinguishes kinds -/
@@ -381,10 +426,13 @@ Mirrors `extractTraitDescs`, the per-line instance loop, `processDuplicates`,
 switch (99-108), `Marshal*`/`Unmarshal*` (132-355). Current tree = all `Quirks` off; the pinned
 algorithms are the `Quirks` switched on, kept for the witness theorems.
 
-Not modelled: float families, import aliasing. Types that bring their own unmarshaler ("native
-parsing") are modelled for enums of the same package generated in an EARLIER run (`Family.self`);
-a trait whose type is an enum generated IN THE SAME RUN is not such a type — its methods do not
-exist yet when the generator inspects it — and falls in its integer family. -/
+Not modelled: float families, import aliasing. Types that bring their own unmarshalers ("native
+parsing") are modelled for integer-kinded types of the same package (`Family.self`): enums
+generated in an EARLIER run under any subset of `-json`, `-yaml`, `-text` (each switch gives the type
+that codec's pointer-receiver unmarshaler) and hand-written types with any subset of the three
+methods. PER CODEC such a type is either in its integer family (`numericTraits c`) or in the native
+block (`nativeTry c`), never both. A trait whose type is an enum generated IN THE SAME RUN has no
+methods yet when the generator inspects it and is in its integer family for every codec. -/
 
 /-- deviations of the pinned commit from the current tree -/
 structure Quirks where
@@ -554,7 +602,7 @@ def genFull (o : Options) (f : FileDef) (t : TypeDecl) : Except GenFailure GenFu
 def zeroOf (ty : String) (fam : Family) (sample : Option Scalar) : Dyn :=
   match fam, sample with
   | .ustr, _ | .nstr, _ => ⟨ty, .str ""⟩
-  | .sint _, _ | .uint _, _ | .self _, _ => ⟨ty, .int 0⟩
+  | .sint _, _ | .uint _, _ | .self .., _ => ⟨ty, .int 0⟩
   | .none, some (.bool _) => ⟨ty, .bool false⟩
   | .none, some (.int _) => ⟨ty, .int 0⟩
   | .none, some (.str _) => ⟨ty, .str ""⟩
@@ -607,11 +655,13 @@ def firstSome {α : Type} : List (Option α) → Option α
   | some a :: _ => some a
   | none :: r => firstSome r
 
-/-- signedness of an integer family (`GetParsableUnderlyingInt64…` / `…Uint64…`) -/
+/-- `hasUnderlying(int64Underlying)` (`signed`) / `hasUnderlying(uint64Underlying)`: the kind of
+the underlying basic type, whatever methods the named type declares -/
 def Family.isNumeric (fam : Family) (signed : Bool) : Bool :=
   match fam with
   | .sint _ => signed
   | .uint _ => !signed
+  | .self _ sg _ _ => sg == signed
   | _ => false
 
 /-- width of the trait type a numeric fallback converts to -/
@@ -619,15 +669,19 @@ def Family.bitsOf (fam : Family) : Nat :=
   match fam with
   | .sint b => b
   | .uint b => b
+  | .self _ _ b _ => b
   | _ => 64
 
-/-- the parsable traits one numeric fallback block ranges over -/
-def GenFull.numericTraits (g : GenFull) (signed : Bool) : List TraitDesc :=
-  g.traits.filter (fun t => t.parsable && t.fam.isNumeric signed)
+/-- `GetParsableUnderlyingInt64For<C>` (`signed`) / `GetParsableUnderlyingUint64For<C>`: the
+parsable traits of that underlying kind, EXCLUDING those whose type brings its own unmarshaler for
+codec `c` (`getParsableUnderlying(u, implements<C>Unmarshaler)`). One numeric fallback block ranges
+over, and is guarded by, this list. -/
+def GenFull.numericTraits (g : GenFull) (c : Codec) (signed : Bool) : List TraitDesc :=
+  g.traits.filter (fun t => t.parsable && t.fam.isNumeric signed && !t.fam.implements c)
 
 /-- the numeric fallback of one family: `if v := T(x); int64(v) == x { Parse(v) }` per trait -/
-def numericTry (q : Quirks) (g : GenFull) (signed : Bool) (x : Int) : Option Int :=
-  firstSome ((g.numericTraits signed).map (fun t =>
+def numericTry (q : Quirks) (g : GenFull) (c : Codec) (signed : Bool) (x : Int) : Option Int :=
+  firstSome ((g.numericTraits c signed).map (fun t =>
     let v := wrapTo signed t.fam.bitsOf x
     if q.noRangeGuard || v == x then g.base.parse ⟨t.ty, .int v⟩ else none))
 
@@ -642,10 +696,10 @@ def stringTry (g : GenFull) (s : String) : Option Int :=
 def GenFull.unmarshalJSON (q : Quirks) (g : GenFull) : JDoc → Option Int
   | .str s => stringTry g s
   | .num i =>
-    let u := if 0 ≤ i ∧ i < (two64 : Int) then numericTry q g false i else none
+    let u := if 0 ≤ i ∧ i < (two64 : Int) then numericTry q g .json false i else none
     match u with
     | some v => some v
-    | none => if -(two63 : Int) ≤ i ∧ i < (two63 : Int) then numericTry q g true i else none
+    | none => if -(two63 : Int) ≤ i ∧ i < (two63 : Int) then numericTry q g .json true i else none
   | .other => none
 
 /-- `UnmarshalText` -/
@@ -656,46 +710,56 @@ def GenFull.unmarshalYAML (q : Quirks) (g : GenFull) (text : String) : Option In
   match stringTry g text with
   | some v => some v
   | none =>
-    let hasU := !(g.numericTraits false).isEmpty   -- the block exists only if the family is non-empty
-    let hasS := !(g.numericTraits true).isEmpty
+    let hasU := !(g.numericTraits .yaml false).isEmpty   -- the block exists only if ITS list is non-empty
+    let hasS := !(g.numericTraits .yaml true).isEmpty
     let u :=
       if !hasU then none
       else match parseUintLit text, q.yamlGuardInverted with
-        | some x, false => numericTry q g false x
-        | none, true => numericTry q g false 0      -- `uinter64` is 0 when ParseUint failed
+        | some x, false => numericTry q g .yaml false x
+        | none, true => numericTry q g .yaml false 0      -- `uinter64` is 0 when ParseUint failed
         | _, _ => none
     match u with
     | some v => some v
     | none =>
       if !hasS then none
       else match parseIntLit text, q.yamlGuardInverted with
-        | some x, false => numericTry q g true x
-        | none, true => numericTry q g true 0
+        | some x, false => numericTry q g .yaml true x
+        | none, true => numericTry q g .yaml true 0
         | _, _ => none
 
-/-- the "native parsing" block: for every parsable trait whose type unmarshals itself, let the
-type's own decoder read the document (`dec inner`), then `Parse<T>` of the decoded value -/
-def GenFull.nativeTry (g : GenFull) (dec : String → Option Int) : Option Int :=
+/-- the "native parsing" block of the decoder for codec `c` (`GetParsable<C>Unmarshalable`): for
+every parsable trait whose type brings its own unmarshaler for `c`, let that unmarshaler read the
+document (`dec inner`), then `Parse<T>` of the decoded value -/
+def GenFull.nativeTry (g : GenFull) (c : Codec) (dec : String → Option Int) : Option Int :=
   firstSome ((g.traits.filter (fun t => t.parsable)).map (fun t =>
     match t.fam with
-    | .self inner =>
-      match dec inner with
-      | some v => g.base.parse ⟨t.ty, .int v⟩
-      | none => none
+    | .self inner _ _ m =>
+      if m.implements c then
+        match dec inner with
+        | some v => g.base.parse ⟨t.ty, .int v⟩
+        | none => none
+      else none
     | _ => none))
 
 /-- the whole `UnmarshalJSON`: the string / uint64 / int64 branches, then the native block, which
-hands the document to the `UnmarshalJSON` of each self-unmarshalling trait type (`env`) -/
+hands the document to the `UnmarshalJSON` of each trait type that has one (`env`) -/
 def GenFull.unmarshalJSONFull (q : Quirks) (env : String → JDoc → Option Int) (g : GenFull) (doc : JDoc) : Option Int :=
   match g.unmarshalJSON q doc with
   | some v => some v
-  | none => g.nativeTry (fun inner => env inner doc)
+  | none => g.nativeTry .json (fun inner => env inner doc)
 
 /-- the whole `UnmarshalYAML` -/
 def GenFull.unmarshalYAMLFull (q : Quirks) (env : String → String → Option Int) (g : GenFull) (text : String) : Option Int :=
   match g.unmarshalYAML q text with
   | some v => some v
-  | none => g.nativeTry (fun inner => env inner text)
+  | none => g.nativeTry .yaml (fun inner => env inner text)
+
+/-- the whole `UnmarshalText`: the string branches (there is no numeric one), then the native block
+over the types that `implementsTextUnmarshaler` accepts (value-receiver `UnmarshalText` only) -/
+def GenFull.unmarshalTextFull (env : String → String → Option Int) (g : GenFull) (text : String) : Option Int :=
+  match g.unmarshalText text with
+  | some v => some v
+  | none => g.nativeTry .text (fun inner => env inner text)
 
 /-- `MarshalJSON` / `MarshalText` / `MarshalYAML`: all three emit `String()` -/
 def GenFull.marshal (g : GenFull) (e : Int) : String := g.base.string e
